@@ -187,18 +187,18 @@ func (c *Ctx) Finish(verif string, start time.Time) int {
 		"seed":        seedFromEnv(),
 		"level":       "other",
 		"coverage": map[string]interface{}{
-			"explanation":        expl,
-			"obligations":        total,
-			"discharged":         discharged,
-			"known_findings":     known,
-			"evaluations":        total,
+			"explanation":         expl,
+			"obligations":         total,
+			"discharged":          discharged,
+			"known_findings":      known,
+			"evaluations":         total,
 			"distinct_nontrivial": len(distinct),
-			"rule":               "one obligation per (rule, construct) instance found in the type-checked SSA program of /repo's working tree; distinct = distinct (rule,key) pairs; every obligation is non-trivial in that it names a resolved construct of the current source",
-			"rules":              sums,
-			"functions_analysed": funcs,
-			"samples":            samples,
-			"checker_cmd":        fmt.Sprintf("./run.sh %s %s", c.Prop, c.Tier),
-			"trusted_base":       []string{"go/types, go/ssa (x/tools v0.50.0, go1.26.8)", "dominator/control-dependence and table extraction code in /verif/checker", "allow-list and lemma tables in the checker (each justified in place)", "Go language and standard-library semantics", "third-party libraries used by gostatsd"},
+			"rule":                "one obligation per (rule, construct) instance found in the type-checked SSA program of /repo's working tree; distinct = distinct (rule,key) pairs; every obligation is non-trivial in that it names a resolved construct of the current source",
+			"rules":               sums,
+			"functions_analysed":  funcs,
+			"samples":             samples,
+			"checker_cmd":         fmt.Sprintf("./run.sh %s %s", c.Prop, c.Tier),
+			"trusted_base":        []string{"go/types, go/ssa (x/tools v0.50.0, go1.26.8)", "dominator/control-dependence and table extraction code in /verif/checker", "allow-list and lemma tables in the checker (each justified in place)", "Go language and standard-library semantics", "third-party libraries used by gostatsd"},
 		},
 		"assumptions": c.Assumptions,
 		"wall_s":      time.Since(start).Seconds(),
